@@ -389,8 +389,9 @@ Lemma finish_good r : good r ->
 Proof.
   destruct r as [st|s l rr| |]; cbn [good]; try tauto.
   intros (Hs & -> & -> & Hq1). exists s. split; [exact Hs|]. split; [exact Hq1|].
-  cbn [finish]. f_equal.
-  apply (prob_exact c Hwf lo hi nl fw Hlt Hfw Hbd s Hs). lia.
+  cbn [finish].
+  rewrite (prob_exact c Hwf lo hi nl fw Hlt Hfw Hbd s Hs) by lia.
+  destruct (N.eqb_spec (L (s + 1) - L s) 0); [lia|reflexivity].
 Qed.
 
 (* quantile_function: for EVERY hint of the symbol type *)
